@@ -287,6 +287,24 @@ impl Model {
                         l.regs.insert(key, val);
                     });
                 }
+                Op::CopyReg { g, kind, from, to } => {
+                    text.push_str(&format!(
+                        "{}{}{}={}{} ",
+                        Self::pre(*g),
+                        kind.cmd(),
+                        to,
+                        kind.cmd(),
+                        from
+                    ));
+                    let val = self.reg(*kind, *from);
+                    let glob = self.global(*g, false);
+                    self.note_assign(glob, &mut reach);
+                    reach.push("register_copied_from_register");
+                    let key = (*kind, *to);
+                    self.write(glob, |l| {
+                        l.regs.insert(key, val);
+                    });
+                }
                 Op::SetViaAlias { g, t, v } => {
                     if let Meaning::RegAlias(kind, idx) = self.meaning(*t) {
                         let val = (*v, 0);
